@@ -14,6 +14,7 @@ _RACE = {
 ENTRY = {
     "C08": dict(_MAIN, **{
         "parts": [_MAIN, _RACE],
+        "technique": "bounded exhaustive exploration of the real implementation (explicit-state search / stateless DFS over a closed driver) against a reference model (part 1); part 2: exhaustive enumeration of a small driver (configuration x edge layout x block pattern) with three channels processed by the real, free-running ProcessSegments goroutines in a race-detector build, the detector's happens-before reports and a processed-alone differential as per-execution monitors",
         "rule": "one execution = one (geometry, edge-multi configuration, edge set, block partition); differential oracle against the one-block run "
                 "of the same stream + ordering/extent rules + the C01 excerpt oracle; non-trivial = at least one record emitted and at least one cut. "
                 "Race-probe part: one execution = one (edge-multi configuration, edge layout, block pattern) with three channels all in edge-multi mode and edges on the same or "
